@@ -129,6 +129,33 @@ def _obs_equal(a, b):
     return a == b
 
 
+PROPERTY_ID = None
+FRESH_REPLAYS = [0]
+
+
+def fresh_replay(pid, rec):
+    """replay a candidate counterexample with `./check <id> --replay` in a new process; returns (sig, detail) if the label fails there"""
+    import json
+    import re
+    import subprocess
+    import sys
+    import tempfile
+
+    try:
+        with tempfile.NamedTemporaryFile("w", suffix=".json", delete=True) as fh:
+            json.dump({"property": pid, "label": rec["label"], "config": rec["config"], "values": rec["values"]}, fh, default=str)
+            fh.flush()
+            out = subprocess.run([sys.executable, "-W", "ignore::SyntaxWarning", "-m", "symx.main", pid, "--replay", fh.name],
+                                 capture_output=True, text=True, timeout=900, cwd=os.path.dirname(os.path.dirname(os.path.abspath(__file__)))).stdout
+    except Exception:  # noqa
+        return None
+    for line in out.splitlines():
+        m = re.match(r"\s*FAILED (\S+) sig=(.*?) detail=(.*)$", line)
+        if m and m.group(1) == rec["label"]:
+            return m.group(2), m.group(3)
+    return None
+
+
 def run_conc(fn, cfg, values):
     """run the harness body concretely on the real code with scripted inputs"""
     ctx = Ctx(mode="conc", values=values)
@@ -214,6 +241,15 @@ def run_path(fn, cfg, prefix, draw_budget, agg, cfg_name, validate):
             except Exception as e:  # noqa
                 rec["reproduced"] = False
                 rec["replay_status"] = "exception: " + "".join(traceback.format_exception_only(type(e), e)).strip()
+            if not rec["reproduced"] and PROPERTY_ID and FRESH_REPLAYS[0] < 6:
+                # library state left behind by earlier paths of this worker (module-level caches) can spoil an in-process
+                # replay: try again in a fresh interpreter before giving up on the counterexample
+                FRESH_REPLAYS[0] += 1
+                hit = fresh_replay(PROPERTY_ID, rec)
+                if hit:
+                    rec["reproduced"] = True
+                    rec["replay_status"] = "reproduced in a fresh interpreter"
+                    rec["sig"], rec["detail"] = hit[0], hit[1] or rec["detail"]
         if len(agg.violations) < 40:
             agg.violations.append(rec)
     # witness validation of the proxies: rerun this very path concretely under a model of pc
@@ -262,6 +298,8 @@ def _worker(harness_path, jobs, results, tier, deadline, nworkers, validate_ever
         import importlib
 
         mod = importlib.import_module(harness_path)
+        global PROPERTY_ID
+        PROPERTY_ID = getattr(mod, "PROPERTY", None)
         cfgs = mod.configs(tier)
         budget = getattr(mod, "DRAW_BUDGET", {}).get(tier)
         while True:
